@@ -38,7 +38,46 @@ def run(pid, root, run_obj):
                 run_obj.broke("self-test: seeded change %s is no longer reported by the %s check (exit %d)" % (seed, pid, rr.returncode))
             if seed in undecidable and rr.returncode == 0:
                 run_obj.broke("self-test: seeded change %s is now silently accepted by the %s check" % (seed, pid))
+        # the other direction: stored behaviour-preserving refactorings must not raise an alarm
+        rdir = os.path.join(VERIF, "refactors")
+        refs = sorted(d for d in os.listdir(rdir) if os.path.exists(os.path.join(rdir, d, "patch.diff"))) if os.path.isdir(rdir) else []
+        # only refactorings that touch a file this check looked at can change its verdict (headers count: same basename)
+        mine = {os.path.splitext(os.path.basename(x))[0] for x in getattr(run_obj, "files", set())}
+
+        def touches(ref):
+            for line in open(os.path.join(rdir, ref, "patch.diff"), errors="replace"):
+                if line.startswith("+++ b/") and os.path.splitext(os.path.basename(line[6:].strip()))[0] in mine:
+                    return True
+            return False
+        refs = [r_ for r_ in refs if r_.startswith(pid + "-") or touches(r_)]
+
+        def one(ref):
+            sc = os.path.join(base, "ref-" + ref)
+            os.makedirs(sc, exist_ok=True)
+            subprocess.check_call(["rsync", "-a", "--delete", "--exclude", "_build", "--exclude", ".git", "--exclude", "build", root.rstrip("/") + "/", sc + "/"])
+            r_ = subprocess.run(["patch", "-p1", "-s", "-d", sc, "-i", os.path.join(rdir, ref, "patch.diff")], capture_output=True, text=True)
+            if r_.returncode != 0:
+                shutil.rmtree(sc, ignore_errors=True)
+                return ref, None
+            env_ = dict(os.environ, CPV_EVIDENCE_DIR=os.path.join(base, "evidence-" + ref), VERIF_TIER="quick")
+            rr_ = subprocess.run([os.path.join(VERIF, "check"), pid, "--tier", "quick", "--root", sc], capture_output=True, text=True, env=env_)
+            shutil.rmtree(sc, ignore_errors=True)
+            return ref, rr_.returncode
+        from concurrent.futures import ThreadPoolExecutor
+        silent = undecided = 0
+        with ThreadPoolExecutor(max_workers=8) as ex:
+            for ref, rc in ex.map(one, refs):
+                if rc is None:
+                    continue
+                if rc == 1:
+                    run_obj.broke("self-test: the %s check raises a false alarm on the behaviour-preserving refactoring %s" % (pid, ref))
+                elif rc == 0:
+                    silent += 1
+                else:
+                    undecided += 1
+        ref_summary = "self-test: %d stored behaviour-preserving refactorings applied to scratch copies, %d silent, %d undecided, 0 alarms expected" % (len(refs), silent, undecided)
     finally:
         shutil.rmtree(base, ignore_errors=True)
+    run_obj.configs.append(ref_summary)
     run_obj.selftest = results
     run_obj.configs.append("self-test: %d stored seeded changes re-applied to a scratch copy of the current tree, %d detected" % (len(results), sum(1 for v in results.values() if v == "detected")))
